@@ -1855,6 +1855,11 @@ fn apply_mutations(text: &[u8], muts: &[Mutation]) -> Vec<u8> {
     p.concat()
 }
 
+/// seed corpus of the coverage-guided campaign (tools/fuzz.sh c26_cmap): generated CMap programs, intact and mutated
+pub fn dump_corpus(dir: &std::path::Path, n: u32, seed: u64) -> std::io::Result<usize> {
+    crate::engine::dump_strategy(dir, n, seed, "C26", robust_strategy(1), |c: &RCase| Some(unl1(&c.text)))
+}
+
 pub fn robust_strategy(non_ascii_hex_weight: u32) -> impl Strategy<Value = RCase> {
     let w = non_ascii_hex_weight;
     prop_oneof![
@@ -1889,8 +1894,8 @@ fn run(ctx: &Ctx) {
         ctx.note(format!("reftab_cmap self test failed: {e}"));
         std::process::exit(2);
     }
-    ctx.run_sub("cmaps", ctx.tier.pick(8_000, 200_000), strategy, check);
-    ctx.run_sub("builders", ctx.tier.pick(2_400, 60_000), || builder_strategy(12), check_builder);
+    ctx.run_sub("cmaps", ctx.tier.pick(30_000, 400_000), strategy, check);
+    ctx.run_sub("builders", ctx.tier.pick(10_000, 120_000), || builder_strategy(12), check_builder);
     ctx.run_sub("document", ctx.tier.pick(1_500, 30_000), document_strategy, check_document);
     ctx.run_sub("fmt12", ctx.tier.pick(1_500, 30_000), fmt12_strategy, check_fmt12);
     // behind the listed parse_hex panic only ~5 % of the inputs are aimed at it
